@@ -104,6 +104,12 @@ func verifFrame(body []byte) []byte {
 func verifNewWorld(nLookupd, budget int) *verifWorld {
 	w := &verifWorld{}
 	verifW = w
+	// Native replay: nsqd talks to real loopback listeners and the harness waits for nsqd's real
+	// goroutines itself (rest / nativeSettle / tick are all bounded waits), so no schedule is
+	// imposed. The symbolic schedule is the canonical one of verifrt.Rest and names threads of
+	// symbolic-only stubs; forcing it on the native thread structure parks goroutines for good
+	// (a replay then only ends with go test's timeout).
+	verifrt.FreeRun()
 	if verifrt.Symbolic() {
 		verifrt.InitPackage("github.com/nsqio/go-nsq")
 		verifrt.Stub("net.DialTimeout", verifDialStub)
